@@ -137,7 +137,7 @@ def check_case(case):
         if e["kind"] == "stopping":
             f = GameFacts(e["game"])
             try:
-                if f.too_slow:
+                if f.slow:
                     v.inconclusive = "T>300"
                     return v
             except OracleError as ex:
